@@ -570,32 +570,110 @@ func ruleK3(c *Ctx) {
 			c.ok("K3", w.fn+":clause", fd.Pos(), "completion clause (case 0, ...) found")
 		}
 	}
-	// K4: the first contact is remembered as soon as it completes when there is no array to hold it
-	if fd := c.Decls["ParseAllContactValues"]; fd != nil {
-		okFirst := false
-		ast.Inspect(fd.Body, func(n ast.Node) bool {
-			cl, ok := n.(*ast.CaseClause)
-			if !ok || len(cl.List) < 2 {
-				return true
+	// the first contact is remembered as soon as it completes when there is no array to hold it (decided on SSA,
+	// whatever the spelling of the completion clause): the copy into the `first` cell reads the slot just parsed,
+	// is selected by tests of the value counter and of len(array) only (besides the completion verdict), and no
+	// reset of the scratch slot can run between the completed parse and the copy
+	if fn := c.SFuncs["ParseAllContactValues"]; fn != nil {
+		okFirst, why := false, "no store to the first-contact cell found"
+		var sites []slotSite
+		for _, s := range findSlotSites(c) {
+			if s.fn == fn {
+				sites = append(sites, s)
 			}
-			seenInc := false
-			for _, s := range cl.Body {
-				src := c.src(s)
-				if patEq(src, "@c.N++") {
-					seenInc = true
+		}
+		cds := controlDeps(fn)
+		for _, b := range fn.Blocks {
+			for _, ins := range b.Instrs {
+				st, ok := ins.(*ssa.Store)
+				if !ok {
+					continue
 				}
-				if strings.Contains(src, ".Reset()") {
-					break
+				fa, ok := st.Addr.(*ssa.FieldAddr)
+				if !ok || !strings.HasSuffix(fieldCell(fa), ".first") {
+					continue
 				}
-				if is, ok := s.(*ast.IfStmt); ok && seenInc {
-					if patInAll(c.src(is), "@c.N == 1", "len(@c.Vals) == 0", "@c.first = *@p") {
-						okFirst = true
+				okFirst, why = true, ""
+				// value: load through the slot pointer
+				ld, isLd := st.Val.(*ssa.UnOp)
+				if !isLd || len(sites) == 0 || !derivesFrom(ld.X, sites[0].p) {
+					okFirst, why = false, "the value copied is not the slot just parsed"
+				}
+				// controlling conditions
+				seen := map[*ssa.BasicBlock]bool{}
+				work := []*ssa.BasicBlock{b}
+				for len(work) > 0 && okFirst {
+					x := work[0]
+					work = work[1:]
+					for _, cd := range cds[x] {
+						if seen[cd.branch] {
+							continue
+						}
+						seen[cd.branch] = true
+						work = append(work, cd.branch)
+						iff := cd.branch.Instrs[len(cd.branch.Instrs)-1].(*ssa.If)
+						bo, isB := iff.Cond.(*ssa.BinOp)
+						okc := false
+						if isB {
+							for _, o := range []ssa.Value{bo.X, bo.Y} {
+								if len(sites) > 0 && o == ssa.Value(sites[0].errv) {
+									okc = true // completion verdict
+								}
+								if u, ok := o.(*ssa.UnOp); ok {
+									if f2, ok := u.X.(*ssa.FieldAddr); ok && strings.HasSuffix(fieldCell(f2), ".N") {
+										okc = true // value counter
+									}
+								}
+								if call, ok := o.(*ssa.Call); ok {
+									if bi, ok := call.Call.Value.(*ssa.Builtin); ok && bi.Name() == "len" {
+										okc = true // capacity
+									}
+								}
+							}
+						}
+						if !okc && !cd.branch.Dominates(fn.Blocks[0]) {
+							// loop-structure branches (for {}) carry no condition of their own
+							if isB {
+								okFirst, why = false, "the copy is selected by a test of something other than the verdict, the value counter and the capacity"
+							}
+						}
+					}
+				}
+				// no scratch reset between the parse and the copy: no Reset call on the scratch address lies on a
+				// path from the parse call to the copy
+				if okFirst && len(sites) > 0 {
+					from := sites[0].call.Block()
+					reach := map[*ssa.BasicBlock]bool{from: true}
+					wk := []*ssa.BasicBlock{from}
+					for len(wk) > 0 {
+						x := wk[len(wk)-1]
+						wk = wk[:len(wk)-1]
+						if x == b {
+							continue
+						}
+						for _, sb := range x.Succs {
+							if !reach[sb] && sb != sites[0].p.Block() {
+								reach[sb] = true
+								wk = append(wk, sb)
+							}
+						}
+					}
+					for rb := range reach {
+						if rb == b || !reachesAvoiding(rb, b, sites[0].p.Block()) {
+							continue // cannot run before the copy within the same iteration
+						}
+						for _, i2 := range rb.Instrs {
+							if call, ok := i2.(*ssa.Call); ok && call.Call.StaticCallee() != nil && call.Call.StaticCallee().Name() == "Reset" && len(call.Call.Args) > 0 && sites[0].isScratchAddr(call.Call.Args[0]) {
+								if rb != from || true {
+									okFirst, why = false, "a reset of the scratch slot can run before the copy"
+								}
+							}
+						}
 					}
 				}
 			}
-			return true
-		})
-		c.check(okFirst, "K3", "ParseAllContactValues:first", fd.Pos(), "with no array, the first completed value is copied to c.first right after N++ and before any reset of the scratch slot (so the first contact stays retrievable whatever happens to the slot later)")
+		}
+		c.check(okFirst, "K3", "ParseAllContactValues:first", fn.Pos(), "with no array, the first completed value is copied to c.first after the completed parse and before any reset of the scratch slot, selected only by the verdict, the value counter and the capacity (so the first contact stays retrievable whatever happens to the slot later) "+why)
 	}
 	// HNo++ exactly on the not-resumed entry
 	if fd := c.Decls["ParseHdrLine"]; fd != nil {
@@ -603,6 +681,26 @@ func ruleK3(c *Ctx) {
 		c.check(patIn(s, "if @h.state != hContact { @c.HNo++ }") && patIn(s, "if @h.state != hPAI { @c.HNo++ }"), "K3", "HNo", fd.Pos(),
 			"the header counters HNo advance exactly when the header is entered for the first time (state != resumed state)")
 	}
+}
+
+func reachesAvoiding(from, to, avoid *ssa.BasicBlock) bool {
+	seen := map[*ssa.BasicBlock]bool{}
+	work := []*ssa.BasicBlock{from}
+	for len(work) > 0 {
+		b := work[len(work)-1]
+		work = work[:len(work)-1]
+		for _, s := range b.Succs {
+			if s == to {
+				return true
+			}
+			if s == avoid || seen[s] {
+				continue
+			}
+			seen[s] = true
+			work = append(work, s)
+		}
+	}
+	return false
 }
 
 // K4: every slot of the caller's array is used. In each slot-selecting parser the array element is chosen exactly
